@@ -139,4 +139,297 @@ theorem serPattern_ml (L : Nat) (p : List (PatElem Bytes)) (hcl : mlPattern p = 
     have ha : w3.indentLevel = L := by simpa [elemLevel, hm] using a
     exact ⟨w3, rfl, hbuf, ha, b, c⟩
 
+/-! ## `get_pattern` on a class pattern -/
+
+theorem skipBlankBlock_line (s : Src) (q k : Nat) (b : UInt8) (hsp : ∀ j, j < k → s[q + j]? = some 32)
+    (hb : s[q + k]? = some b) (h1 : b ≠ 32) (h2 : b ≠ 10) (h3 : b ≠ 13) : skipBlankBlock s q = (q, 0) := by
+  have hsbi : skipBlankInline s q = q + k := skipBlankInline_run s k q hsp (by rw [hb]; simpa using h1)
+  unfold skipBlankBlock
+  rw [skipBlankBlockGo, hsbi]
+  have : skipEol s (q + k) = none := by
+    unfold skipEol
+    rw [hb]
+    split <;> simp_all
+  rw [this]
+  simp [get_lt hb]
+
+theorem exprText_head_of {L : Nat} {x : Expr Bytes} (h : PlRT L x) : ∃ rest, exprText L x = 123 :: rest := by
+  have := h.head
+  cases hx : exprText L x with
+  | nil => simp [hx] at this
+  | cons a as => simp [hx] at this; subst this; exact ⟨as, rfl⟩
+
+/-- the first line of a pattern that starts on a new line: indentation, then a byte that is no blank and no
+line end -/
+theorem elemsText_first_line (L : Nat) (p : List (PatElem Bytes)) (hne : p ≠ [])
+    (hpl : ∀ x, PatElem.placeable x ∈ p → PlRT L x) (hml : mlElems true p = true)
+    (hfirst : ∀ v es, p = .text v :: es → v ≠ [10]) :
+    ∃ k b rest, elemsText L true p = spacesL k ++ b :: rest ∧ b ≠ 32 ∧ b ≠ 10 ∧ b ≠ 13 := by
+  cases p with
+  | nil => exact absurd rfl hne
+  | cons e es =>
+    cases e with
+    | placeable x =>
+      obtain ⟨rest, hr⟩ := exprText_head_of (hpl x (List.mem_cons_self))
+      exact ⟨4 * L, 123, rest ++ elemsText L false es, by simp [elemsText, hr], by decide, by decide, by decide⟩
+    | text v =>
+      have hv10 := hfirst v es rfl
+      simp only [mlElems, Bool.and_eq_true] at hml
+      obtain ⟨⟨⟨hvok, _⟩, hls⟩, _⟩ := hml
+      have hlsok : lineStartOK v es = true := by
+        simp only [Bool.not_true, Bool.false_or, Bool.or_eq_true, beq_iff_eq] at hls
+        rcases hls with h | h
+        · exact absurd h hv10
+        · exact h
+      have hsplit := leadSpaces_split v
+      cases hu : v.dropWhile (fun b => b == 32) with
+      | nil =>
+        simp only [lineStartOK, hu] at hlsok
+        cases es with
+        | nil => simp at hlsok
+        | cons e2 es' =>
+          cases e2 with
+          | text w => simp at hlsok
+          | placeable x =>
+            obtain ⟨rest, hr⟩ := exprText_head_of (hpl x (by simp))
+            have hnv : endsNl v = false := by
+              have hv2 : v = spacesL (leadSpaces v) := by rw [hu] at hsplit; simpa using hsplit
+              have hk0 : 0 < leadSpaces v := by
+                have := mlTextOK_ne hvok
+                have h2 := congrArg List.length hv2
+                simp [spacesL] at h2
+                cases v with
+                | nil => exact absurd rfl this
+                | cons _ _ => simp at h2; omega
+              have : v.getLast? = some 32 := by
+                rw [hv2]; simp [spacesL, List.getLast?_replicate]; omega
+              simp [endsNl, this]
+            refine ⟨4 * L + leadSpaces v, 123, rest ++ elemsText L false es', ?_, by decide, by decide, by decide⟩
+            rw [hu] at hsplit
+            simp only [elemsText, if_true, hnv, Bool.false_eq_true, if_false, List.nil_append, hr]
+            generalize leadSpaces v = k at hsplit ⊢
+            rw [hsplit]
+            simp [spacesL, ← List.replicate_append_replicate]
+      | cons c u' =>
+        simp only [lineStartOK, hu] at hlsok
+        have hcm : c ∈ v := by rw [hsplit, hu]; simp
+        simp only [contentStartOK, Bool.and_eq_true, bne_iff_ne, ne_eq] at hlsok
+        refine ⟨4 * L + leadSpaces v, c, u' ++ elemsText L (endsNl v) es, ?_, hlsok.1.1.1.1, hlsok.1.1.1.2,
+          (mlTextOK_mem hvok c hcm).1⟩
+        rw [hu] at hsplit
+        simp only [elemsText, if_true]
+        generalize leadSpaces v = k at hsplit ⊢
+        generalize endsNl v = nv
+        rw [hsplit]
+        simp [spacesL, ← List.replicate_append_replicate]
+
+theorem excesses_single (p : List (PatElem Bytes)) (h : isMultiline p = false) : excesses false p = [] := by
+  induction p with
+  | nil => rfl
+  | cons e es ih =>
+    cases e with
+    | placeable x =>
+      simp only [isMultiline, Bool.or_eq_false_iff] at h
+      simp [excesses, ih h.2]
+    | text v =>
+      simp only [isMultiline, Bool.or_eq_false_iff] at h
+      have hnv : endsNl v = false := by
+        simp only [endsNl, beq_eq_false_iff_ne, ne_eq]
+        intro hl
+        have := List.mem_of_getLast? hl
+        have h1 := h.1
+        rw [List.contains_eq_mem] at h1
+        simp [this] at h1
+      simp [excesses, hnv, ih h.2]
+
+theorem elemsText_first_inline (L : Nat) (p : List (PatElem Bytes)) (hne : p ≠ [])
+    (hpl : ∀ x, PatElem.placeable x ∈ p → PlRT L x) (hml : mlElems false p = true)
+    (hfirst : ∀ v es, p = .text v :: es → v.head? ≠ some 32 ∧ v.head? ≠ some 10) :
+    ∃ b rest, elemsText L false p = b :: rest ∧ b ≠ 32 ∧ b ≠ 10 ∧ b ≠ 13 := by
+  cases p with
+  | nil => exact absurd rfl hne
+  | cons e es =>
+    cases e with
+    | placeable x =>
+      obtain ⟨rest, hr⟩ := exprText_head_of (hpl x (List.mem_cons_self))
+      exact ⟨123, rest ++ elemsText L false es, by simp [elemsText, hr], by decide, by decide, by decide⟩
+    | text v =>
+      obtain ⟨h1, h2⟩ := hfirst v es rfl
+      simp only [mlElems, Bool.and_eq_true] at hml
+      obtain ⟨⟨⟨hvok, _⟩, _⟩, _⟩ := hml
+      cases v with
+      | nil => exact absurd rfl (mlTextOK_ne hvok)
+      | cons b rest =>
+        refine ⟨b, rest ++ elemsText L (endsNl (b :: rest)) es, by simp [elemsText], ?_, ?_,
+          (mlTextOK_mem hvok b (by simp)).1⟩
+        · simpa using h1
+        · simpa using h2
+
+/-- **`get_pattern` reads a class pattern back** -/
+theorem getPattern_ml {s : Src} (hs : AsciiThenBoundary s) (L : Nat) (p : List (PatElem Bytes)) (hcl : mlPattern p = true)
+    (hpl : ∀ x, PatElem.placeable x ∈ p → PlRT (elemLevel L p) x) (q q' n : Nat)
+    (hat : At s q (patText L p ++ [10])) (hf : PatFollow s (q + (patText L p).length + 1) q')
+    (hn : 4 * (q' - q) + 8 ≤ n) :
+    ∃ els, getPattern s n q = .ok (some els) q' ∧ mapPat (spanBytes s) els = p := by
+  simp only [mlPattern, Bool.and_eq_true, Bool.not_eq_true', List.isEmpty_eq_false_iff] at hcl
+  obtain ⟨⟨⟨⟨hne, hml⟩, hlast⟩, hfirst⟩, hexc⟩ := hcl
+  obtain ⟨m, rfl⟩ : ∃ m, n = m + 1 := ⟨n - 1, by omega⟩
+  have hq'ge : q + (patText L p).length + 1 ≤ q' := hf.1
+  cases hs1 : startsOnNewLine p
+  · -- inline start
+    simp only [patText, patPrefix, hs1, Bool.false_eq_true, if_false, List.cons_append, List.nil_append, at_cons,
+      List.length_cons] at hat hf hq'ge
+    rw [hs1] at hml
+    obtain ⟨b, rest, hbr, b1, b2, b3⟩ := elemsText_first_inline (elemLevel L p) p hne hpl hml (by
+      intro v es hp
+      simp only [mlFirstOK, hp] at hfirst
+      rw [← hp, hs1] at hfirst
+      simpa using hfirst)
+    have hb0 : s[q + 1]? = some b := by
+      have := hat.2; rw [hbr] at this; simp only [List.cons_append, at_cons] at this; exact this.1
+    have hsbi : skipBlankInline s q = q + 1 := by
+      rw [skipBlankInline_space s q hat.1]
+      exact skipBlankInline_stay s _ (by rw [hb0]; simpa using b1)
+    have heol : skipEol s (q + 1) = none := by
+      unfold skipEol; rw [hb0]; split <;> simp_all
+    have hLm : 0 < elemLevel L p ∨ isMultiline p = false := by
+      cases hm : isMultiline p
+      · exact Or.inr rfl
+      · exact Or.inl (by simp [elemLevel, hm])
+    have hcfin : excesses false p ≠ [] → ciAfter (4 * elemLevel L p) none (excesses false p) = some (4 * elemLevel L p) := by
+      intro hex
+      cases hm : isMultiline p
+      · exact absurd (excesses_single p hm) hex
+      · rw [hm, hs1] at hexc
+        simp only [Bool.not_true, Bool.false_or] at hexc
+        exact ciAfter_zero _ none _ trivial (by simpa using hexc)
+    obtain ⟨phs, tr, hloop, hrel⟩ := mlLoop hs (elemLevel L p) p hpl false m (q + 1) q'
+      ⟨[], none, none, .initialLineStart, none⟩ _ hml hlast (fun h => absurd h hne) hLm (fun h => by cases h)
+      (by simp [mlRole]) rfl hcfin (bnd_succ hs hat.1 (by decide)) hat.2
+      (by rw [show q + 1 + (elemsText (elemLevel L p) false p).length + 1 =
+            q + ((elemsText (elemLevel L p) false p).length + 1) + 1 by omega]; exact hf)
+      (by omega)
+    obtain ⟨els, hfin, hmap⟩ := finishElements_mph s _ p hne phs tr 0 hrel
+    refine ⟨els, ?_, hmap⟩
+    have hpe : p.isEmpty = false := by cases p <;> simp_all
+    rw [getPattern]
+    simp only [hsbi, heol, hloop, hpe, Bool.false_eq_true, if_false, List.length_nil, List.nil_append]
+    rw [Nat.zero_add] at hfin ⊢
+    rw [hfin]
+  · -- the pattern starts on a new line
+    have hm : isMultiline p = true := by
+      simp only [startsOnNewLine, Bool.and_eq_true] at hs1; exact hs1.2
+    have hlev : elemLevel L p = L + 1 := by simp [elemLevel, hm]
+    simp only [patText, patPrefix, hs1, if_true, List.cons_append, List.nil_append, at_cons, List.length_cons] at hat hf hq'ge
+    rw [hs1] at hml hexc
+    rw [hlev] at hat hf hpl hq'ge
+    obtain ⟨k, b, rest, hkb, b1, b2, b3⟩ := elemsText_first_line (L + 1) p hne hpl hml (by
+      intro v es hp
+      simp only [mlFirstOK, hp] at hfirst
+      rw [← hp, hs1] at hfirst
+      simpa using hfirst)
+    have hline : At s (q + 1) (spacesL k) ∧ s[q + 1 + k]? = some b := by
+      have := hat.2
+      rw [hkb, List.append_assoc, at_append] at this
+      refine ⟨this.1, ?_⟩
+      have h2 := this.2
+      simp only [List.cons_append, at_cons] at h2
+      simpa [spacesL] using h2.1
+    have hsbi : skipBlankInline s q = q := skipBlankInline_stay s q (by rw [hat.1]; decide)
+    have heol : skipEol s q = some (q + 1) := by simp [skipEol, hat.1]
+    have hsbb : skipBlankBlock s (q + 1) = (q + 1, 0) :=
+      skipBlankBlock_line s (q + 1) k b (at_spaces s _ k hline.1) hline.2 b1 b2 b3
+    rw [hm] at hexc
+    simp only [Bool.not_true, Bool.false_or] at hexc
+    have hcfin : ciAfter (4 * (L + 1)) none (excesses true p) = some (4 * (L + 1)) :=
+      ciAfter_zero _ none _ trivial (by simpa using hexc)
+    obtain ⟨phs, tr, hloop, hrel⟩ := mlLoop hs (L + 1) p hpl true m (q + 1) q'
+      ⟨[], none, none, .lineStart, none⟩ _ hml hlast (fun h => absurd h hne) (Or.inl (by omega)) (fun _ => by omega)
+      (by simp [mlRole]) rfl (fun _ => hcfin) (bnd_succ hs hat.1 (by decide)) hat.2
+      (by rw [show q + 1 + (elemsText (L + 1) true p).length + 1 =
+            q + ((elemsText (L + 1) true p).length + 1) + 1 by omega]; exact hf)
+      (by omega)
+    obtain ⟨els, hfin, hmap⟩ := finishElements_mph s _ p hne phs tr 0 hrel
+    refine ⟨els, ?_, hmap⟩
+    have hpe : p.isEmpty = false := by cases p <;> simp_all
+    rw [getPattern]
+    simp only [hsbi, heol, hsbb, hloop, hpe, Bool.false_eq_true, if_false, List.length_nil, List.nil_append]
+    rw [Nat.zero_add] at hfin ⊢
+    rw [hfin]
+
+/-! ## `PatRT`, and the inline placeables -/
+
+/-- round-trip property of a pattern written at indent level `L` -/
+structure PatRT (L : Nat) (p : List (PatElem Bytes)) : Prop where
+  ser : ∀ w : Writer, WS w L false →
+    ∃ w', serPattern w p = some w' ∧ w'.buffer = w.buffer ++ (patText L p).toArray ∧ WS w' L false
+  parse : ∀ (s : Src) (q q' n : Nat), AsciiThenBoundary s → At s q (patText L p ++ [10]) →
+    PatFollow s (q + (patText L p).length + 1) q' → 4 * (q' - q) + 8 ≤ n →
+    ∃ els, getPattern s n q = .ok (some els) q' ∧ mapPat (spanBytes s) els = p
+
+/-- a class pattern whose placeables round-trip, round-trips -/
+theorem patRT_of_ml (L : Nat) (p : List (PatElem Bytes)) (hcl : mlPattern p = true)
+    (hpl : ∀ x, PatElem.placeable x ∈ p → PlRT (elemLevel L p) x) : PatRT L p :=
+  ⟨fun w hw => serPattern_ml L p hcl hpl w hw,
+   fun _ q q' n hs hat hf hn => getPattern_ml hs L p hcl hpl q q' n hat hf hn⟩
+
+theorem elemBytes_inline_last (i : Inline Bytes) (hv : validInner (.inline i) = true) :
+    (elemBytes (.placeable (.inline i))).getLast? = some 125 := by
+  obtain ⟨pre, hp⟩ := elemBytes_placeable_last (.inline i) hv
+  rw [hp]; simp
+
+/-- `serialize_element` writes an inline placeable as one literal, whatever the writer -/
+theorem serElement_inline_eq (i : Inline Bytes) (hv : validInner (.inline i) = true) (w : Writer) :
+    serElement w (.placeable (.inline i)) = some (w.writeLiteral (elemBytes (.placeable (.inline i)))) := by
+  have spaced : ∀ j : Inline Bytes, validInner (.inline j) = true →
+      (serInline (w.writeLiteral [123, 32]) j).map (fun w1 => w1.writeLiteral [32, 125]) =
+        some (w.writeLiteral (123 :: 32 :: (inlineBytes j ++ [32, 125]))) := by
+    intro j hvj
+    have hj := validInner_inline hvj
+    obtain ⟨e1, t2⟩ := serInline_eq_bytes j hj (w.writeLiteral [123, 32])
+    rw [e1, Option.map_some, join_tidy _ [123, 32] _ (by decide), join_tidy _ _ _ (tidy_append _ _ t2)]
+    simp
+  cases i with
+  | placeable e2 =>
+    cases e2 with
+    | select a b =>
+      have : validInner (.inline (.placeable (.select a b))) = validInline (.placeable (.select a b)) := rfl
+      rw [this] at hv
+      simp [validInline, validInner] at hv
+    | inline j =>
+      have hvj : validInner (.inline j) = true := by
+        have : validInner (.inline (.placeable (.inline j))) = validInline (.placeable (.inline j)) := rfl
+        rw [this] at hv
+        simpa [validInline] using hv
+      have hj := validInner_inline hvj
+      simp only [serElement, serExpr, elemBytes, innerBytes, lit_dbl_lbrace, lit_dbl_rbrace]
+      obtain ⟨e1, t2⟩ := serInline_eq_bytes j hj (w.writeLiteral [123, 123, 32])
+      rw [e1, Option.map_some, join_tidy _ [123, 123, 32] _ (by decide), join_tidy _ _ _ (tidy_append _ _ t2)]
+      simp
+  | str v => simpa [serElement, elemBytes] using spaced _ hv
+  | num v => simpa [serElement, elemBytes] using spaced _ hv
+  | var v => simpa [serElement, elemBytes] using spaced _ hv
+  | msg a b => simpa [serElement, elemBytes] using spaced _ hv
+  | term a b c => simpa [serElement, elemBytes] using spaced _ hv
+  | fn a b c => simpa [serElement, elemBytes] using spaced _ hv
+
+/-- **inline placeables** (`{ i }`, `{{ i }}`) have the round-trip property at every level -/
+theorem plRT_inline (L : Nat) (i : Inline Bytes) (hv : validInner (.inline i) = true) : PlRT L (.inline i) := by
+  have htxt : exprText L (.inline i) = elemBytes (.placeable (.inline i)) := by simp [exprText]
+  obtain ⟨tl, htl⟩ := elemBytes_placeable_head (.inline i) hv
+  have hlast := elemBytes_inline_last i hv
+  refine ⟨by rw [htxt, htl]; rfl, by rw [htxt]; exact hlast, ?_, ?_⟩
+  · intro w nl hw
+    -- `serialize_element` writes the text as one literal
+    have hser := serElement_inline_eq i hv w
+    have hne : elemBytes (.placeable (.inline i)) ≠ [] := by rw [htl]; simp
+    obtain ⟨hb, hw1⟩ := ws_writeLiteral hw _ hne (by rw [hlast]; decide)
+    refine ⟨_, hser, by rw [htxt]; exact hb, ?_⟩
+    have : endsNl (elemBytes (.placeable (.inline i))) = false := by simp [endsNl, hlast]
+    rwa [this] at hw1
+  · intro s p n hs hat hn
+    rw [htxt] at hat hn ⊢
+    have hfu := fuelElem_le (.placeable (.inline i)) (by simpa [validElem] using hv)
+    exact getPlaceable_elem hs (.inline i) hv p n hat (by omega)
+
 end FluentProofs.Ser
